@@ -13,6 +13,7 @@ from harness import deps_common as dc
 from harness import env, synth, tlc
 
 _MODELS = {}
+_SCRATCH = []   # synthetic model directories, removed after the verdicts (replay files embed the models)
 
 
 def _models(isa, dirpath):
@@ -50,10 +51,12 @@ def _observe_items(task):
             c = dc.make_case(cid, obs, checks, k=k, extra=extra)
             c["text"] = text
             c["olat"], c["olatwo"], c["olds"] = obs["lat"], obs["latwo"], obs["lds"]
+            c["model"] = {"kind": kind, "isa": isa, "where": where, "flag_deps": bool(flag_deps)}
             out.append(c)
         except Exception as e:
             out.append({"id": cid, "error": "%s: %s" % (type(e).__name__, e), "text": text,
-                        "trace": traceback.format_exc()[-1500:]})
+                        "trace": traceback.format_exc()[-1500:], "meta": (extra or {}).get("meta", {}),
+                        "model": {"kind": kind, "isa": isa, "where": where, "flag_deps": bool(flag_deps)}})
     return out
 
 
@@ -75,7 +78,7 @@ def validate(run, cases, label, chunk=4000):
 
     def one(ix_cs):
         ix, cs = ix_cs
-        slim = [{k: v for k, v in c.items() if k not in ("text", "olat", "olatwo", "olds", "meta")} for c in cs]
+        slim = [{k: v for k, v in c.items() if k not in ("text", "olat", "olatwo", "olds", "meta", "model", "rotText")} for c in cs]
         return tlc.batch_validate("Trace_Deps", "Trace_Deps", slim, tag="%s-%d" % (label, ix), timeout=1500)
 
     with concurrent.futures.ThreadPoolExecutor(max_workers=6) as ex:
@@ -166,7 +169,7 @@ def replay_enumerated(run, pid, checks, kernels, seed, flag_deps, limit=None, ta
         for i in range(0, len(items), step):
             tasks.append(("syn", isa, d, items[i:i + step], checks))
     cases = observe_parallel(tasks)
-    shutil.rmtree(d, ignore_errors=True)
+    _SCRATCH.append(d)
     return cases
 
 
@@ -208,14 +211,29 @@ def random_synthetic(run, pid, checks, seed, n_kernels, maxlen, tag="r3", nmodel
                 tasks.append(("syn", isa, d, items[i:i + step], checks))
     cases = observe_parallel(tasks)
     for d in dirs:
-        shutil.rmtree(d, ignore_errors=True)
+        _SCRATCH.append(d)
     return cases
 
 
 # ------------------------------------------------------------------------------------------
+def _embed(c):
+    """Make a failing case self-contained: embed the synthetic model files it was analysed with."""
+    m = c.get("model") or {}
+    if m.get("kind") == "syn" and os.path.isdir(str(m.get("where"))):
+        files = {}
+        for f in os.listdir(m["where"]):
+            if f.endswith(".yml") and m["isa"] in f:
+                with open(os.path.join(m["where"], f)) as fh:
+                    files[f] = fh.read()
+        c = dict(c, model=dict(m, files=files))
+    return c
+
+
 def report(run, pid, rejected, cases):
+    rejected = [(_embed(c), cl, d) for c, cl, d in rejected[:200]] + rejected[200:]
     for c in cases:
         if "error" in c:
+            c = _embed(c)
             run.fail("%s:exception:%s" % (pid, c["error"].split(":")[0]), c["error"], c)
     for c, clause, detail in rejected:
         meta = c.get("meta", {})
@@ -261,6 +279,8 @@ def finish_family(run, pid, cases):
     report(run, pid, rejected, cases)
     for c in good[:2] + good[-2:]:
         run.sample({k: c.get(k) for k in ("id", "text", "E", "cp", "cpMarked", "lcd")})
+    while _SCRATCH:
+        shutil.rmtree(_SCRATCH.pop(), ignore_errors=True)
 
 
 def run_family(run, pid, tier, seed, checks, validate_now=True):
@@ -290,11 +310,54 @@ def run_family(run, pid, tier, seed, checks, validate_now=True):
     return cases
 
 
-def replay(path, checks):
+def replay(path, checks=None):
+    """Re-run one recorded case against the current code and validate it again with TLC.
+    exit 0: the case is accepted now; 1: still rejected (VIOLATION line printed)."""
+    from harness.verdict import Run
+
     with open(path) as f:
         rec = json.load(f)
-    print(json.dumps({k: rec["case"].get(k) for k in ("id", "text", "E", "cp", "lcd")}, indent=1))
-    print(rec["what"])
+    c = rec["case"]
+    m = c["model"]
+    print("replaying %s (%s)" % (rec["signature"], path))
+    if m["kind"] == "syn":
+        d = env.scratch("replay-%d" % os.getpid())
+        for name, content in m.get("files", {}).items():
+            with open(os.path.join(d, name), "w") as fh:
+                fh.write(content)
+        where = d
+    else:
+        env.warm_models([m["where"]])
+        where = m["where"]
+    extra = {"meta": c.get("meta", {})}
+    for key in ("r", "rotLcd", "rotMax", "latFromObs"):
+        if key in c:
+            extra[key] = c[key]
+    if "k" in c and m["kind"] != "syn":
+        extra["latFromObs"] = True
+    item = (c["id"], c.get("rotText") or c["text"], c.get("k"), m["flag_deps"], extra)
+    use = tuple(checks or c.get("checks") or ())
+    if "rot" in c.get("checks", []):
+        print("rotation case: re-analysing the rotated text only (run the check for the full comparison)")
+        use = ("lcd",)
+        item = (c["id"], c["rotText"], None, m["flag_deps"], {"meta": c.get("meta", {})})
+    out = _observe_items((m["kind"], m["isa"], where, [item], use))
+    run = Run(rec["property"], "quick", rec.get("seed", 0))
+    bad = 0
+    for o in out:
+        if "error" in o:
+            print("exception:", o["error"])
+            bad += 1
+    good = [o for o in out if "error" not in o]
+    for cc, clause, detail in validate(run, good, "replay"):
+        print("rejected:", clause, detail)
+        bad += 1
+    if m["kind"] == "syn":
+        shutil.rmtree(where, ignore_errors=True)
+    if bad:
+        print("VIOLATION property=%s replay=%s" % (rec["property"], path))
+        return 1
+    print("accepted on the current tree")
     return 0
 
 
@@ -406,7 +469,7 @@ def replay_critpath_graphs(run, pid, checks, graphs, seed, limit=None):
         for i in range(0, len(items), step):
             tasks.append(("syn", isa, d, items[i:i + step], checks))
     cases = observe_parallel(tasks)
-    shutil.rmtree(d, ignore_errors=True)
+    _SCRATCH.append(d)
     return cases
 
 
@@ -457,8 +520,7 @@ def rotation_cases(run, pid, seed, n_kernels, maxlen, all_offsets, archs_x86, ar
             add("arch", isa, arch, "%s:rot:%s:%s" % (pid, arch, name), lines,
                 {"isa": isa, "src": "shipped:" + arch, "shapes": [name]}, offs)
     obs = observe_parallel(tasks)
-    for dd in dirs:
-        shutil.rmtree(dd, ignore_errors=True)
+    _SCRATCH.extend(dirs)
     byid = {c["id"]: c for c in obs}
     cases, errors = [], []
     for base_id, (n, offs) in groups.items():
